@@ -153,6 +153,13 @@ def jobs(tier):
     for mode in ('power', 'gain'):
         js.append(dict(name=f'H9c:oms_telescoping:{mode}_mode', fn='h_oms_telescoping', params=dict(mode=mode), cost=100,
                        budget_s=200 if tier == 'quick' else 600))
+    states = [(0.0, 0.0, 0.0), (-2.0, 1.0, 2.0), (1.5, 0.0, -3.0)]
+    if tier != 'quick':
+        states += [(0.0, 1.0, 2.0), (-2.0, 0.0, -3.0), (1.5, 1.0, 0.0), (-4.0, 3.0, 1.0)]
+    for lib in SELECT_LIBS:
+        for st in states:
+            js.append(dict(name=f'H9d:auto_selected_amplifier:{lib}:prev_dp={st[0]},prev_voa={st[1]},pref={st[2]}dBm', fn='h_auto_selected',
+                           params=dict(lib=lib, state=st), cost=80, budget_s=200 if tier == 'quick' else 600))
     return js
 
 
@@ -182,8 +189,11 @@ def h_oms_telescoping(ctx, mode):
     by['fiber1'].design_span_loss, by['fiber2'].design_span_loss = loss1, loss2
     p_max = ctx.real('amp_p_max_dbm', lo=15, hi=30)
     eqpt['Edfa']['std_medium_gain'].p_max = p_max
+    auto_voa = ctx.choice('out_voa_auto', [False, True])
+    eqpt['Edfa']['std_medium_gain'].out_voa_auto = auto_voa
     for u in ('booster', 'ila', 'preamp'):
         by[u].params.p_max = p_max
+        by[u].params.out_voa_auto = auto_voa
     ref = PathRequest(request_id='ref', source='trx A', destination='trx B', bidir=False, trx_type='', trx_mode='', nodes_list=[],
                       loose_list=[], format='', path_bandwidth=0, effective_freq_slot=None, nb_channel=40, power=1e-3, tx_power=1e-3,
                       baud_rate=32e9, spacing=50e9, f_min=191.3e12, f_max=196.1e12, roll_off=0.15, tx_osnr=40, OSNR=11, bit_rate=100e9,
@@ -201,7 +211,7 @@ def h_oms_telescoping(ctx, mode):
     chain = [('booster', 0.0, 'fiber'), ('ila', loss1, 'fiber'), ('preamp', loss2, 'roadm')]
     for uid, loss, nxt in chain:
         a = by[uid]
-        info = dict(mode=mode, amp=uid)
+        info = dict(mode=mode, amp=uid, out_voa_auto=auto_voa)
         if mode == 'power':
             ctx.prove(f'{uid}: gain = loss since previous amplifier + change of target + previous VOA',
                       eq(a.effective_gain, loss + a.delta_p - prev_dp + prev_voa), info=info)
@@ -217,3 +227,45 @@ def h_oms_telescoping(ctx, mode):
             ctx.prove(f'{uid}: gain mode records no offset', a.delta_p is None, info=info)
             prev_dp = prev_dp - loss - prev_voa + a.effective_gain
         prev_voa = a.out_voa
+
+
+SELECT_LIBS = {
+    'edfa_only': ['std_low_gain', 'std_medium_gain', 'std_high_gain'],
+    'with_raman': ['std_medium_gain', 'std_high_gain', 'hybrid_4pumps_lowgain', 'hybrid_4pumps_mediumgain'],
+    'highpower+fixed': ['std_medium_gain', 'std_fixed_gain', 'high_power'],
+}
+
+
+def h_auto_selected(ctx, lib, state):
+    """set_one_amplifier on an amplifier WITHOUT imposed model (power mode): whichever model select_edfa picks - Raman/hybrid
+    included, the preceding fibre being eligible - the total design power stays within that model's p_max, the offset is
+    never raised, and it is reduced only when the rule target would exceed p_max or the model's (extended) gain range"""
+    from gnpy.core.network import set_one_amplifier
+    symbolic_ctors(ctx)
+    eqpt = deepcopy(equipment())
+    span = eqpt['Span']['default']
+    span.power_mode = True
+    g, by = _line(eqpt)
+    amp, fiber, roadm = by['preamp'], by['fiber'], by['roadm B']
+    amp.params.type_variety = ''
+    amp.type_variety = ''
+    loss_lin = ctx.real('span_loss_lin', lo=10 ** 0.5, hi=10 ** 4.5)
+    nch = ctx.real('nb_channels', lo=1, hi=400)
+    loss, nch_db = 10 * elems.log10(ctx, loss_lin), 10 * elems.log10(ctx, nch)
+    fiber.design_span_loss = loss
+    prev_dp, prev_voa, pref_ch = state          # upstream offset, upstream VOA, reference channel power (dBm)
+    pref_total = pref_ch + nch_db
+    dp, voa = set_one_amplifier(amp, fiber, roadm, True, prev_voa, prev_dp, pref_ch, pref_total, g, SELECT_LIBS[lib], eqpt, False)
+    chosen = amp.params.type_variety
+    info = dict(lib=lib, chosen=chosen, prev_dp=prev_dp, prev_voa=prev_voa, pref_ch=pref_ch)
+    ctx.prove('a model of the permitted list is selected', chosen in SELECT_LIBS[lib], info=info)
+    if chosen not in SELECT_LIBS[lib]:
+        return
+    model = eqpt['Edfa'][chosen]
+    ctx.prove('total design power within the selected model p_max', le(pref_total + amp.delta_p, model.p_max + 1e-9), info=info)
+    ctx.prove('offset before a ROADM never raised above the rule (0)', le(amp.delta_p, 1e-9), info=info)
+    want_gain = loss + 0 - prev_dp + prev_voa
+    ctx.prove('gain = span loss + change of target + previous VOA', eq(amp.effective_gain, loss + amp.delta_p - prev_dp + prev_voa), info=info)
+    fits = bool(pref_total <= model.p_max) and bool(want_gain <= model.gain_flatmax + span.target_extended_gain)
+    if fits:
+        ctx.prove('no reduction when the rule target fits the selected model', eq(amp.delta_p, 0), info=info)
